@@ -17,6 +17,17 @@ package staticfiles
 //@   pure
 //@ extern strings.TrimSpace
 //@   pure
+//@ extern strings.HasPrefix
+//@   pure
+//@   ensures result == (len(s) >= len(prefix) && forall(i, 0, len(prefix), s[i] == prefix[i]))
+//@   ensures len(prefix) == 1 ==> result == (len(s) >= 1 && s[0] == prefix[0])
+//@   ensures len(prefix) == 2 ==> result == (len(s) >= 2 && s[0] == prefix[0] && s[1] == prefix[1])
+//@ extern strings.TrimPrefix
+//@   ensures HasPrefix(s, prefix) ==> result == s[len(prefix):]
+//@   ensures !HasPrefix(s, prefix) ==> result == s
+//@ extern (*net/url.URL).String
+//@   pure
+//@ define sameOrigin(p string) bool = !(len(p) >= 2 && p[0] == '/' && p[1] == '/')
 //@ extern (net/http.Header).Set
 
 //@ func (FileServer).serveFile
@@ -26,6 +37,13 @@ package staticfiles
 //@   // C18: a precompressed sibling is only chosen in a coding the client offered, and is announced with its own size
 //@   at call (net/http.Header).Set#2 assert [coding_was_offered] exists(j, 0, len(acceptEncoding), strings.TrimSpace(acceptEncoding[j]) == encoding.name)
 //@   at call (net/http.Header).Set#2 assert [announces_that_coding] arg2 == encoding.name && arg1 == "Content-Encoding"
+//@   // C02: the canonical-path redirects stay on the same origin (never a Location beginning with "//")
+//@   at call net/http.Redirect#1 assert [dir_redirect_same_origin] sameOrigin(urlCopy.Path)
+//@   at call net/http.Redirect#2 assert [file_redirect_same_origin] sameOrigin(urlCopy.Path)
+//@   loop 1 invariant len(urlCopy.Path) >= 1 && urlCopy.Path[len(urlCopy.Path)-1] != '/' && d == statOf(f)
+//@   loop 1 decreases len(urlCopy.Path)
+//@   loop 2 invariant d == statOf(f)
+//@   loop 2 decreases len(urlCopy.Path)
 //@   loop 3 invariant d == statOf(f)
 //@   loop 4 invariant d == statOf(f) && !fs.IsHidden(d) && !d.IsDir()
 //@   loop 5 invariant d == statOf(f) && !fs.IsHidden(d) && !d.IsDir() && !accepted
